@@ -13,7 +13,7 @@ from .reference import Reference, declared_edges, reachable
 from .sim import BarrierScheduler, FifoScheduler, ScriptedScheduler, make_scheduler
 
 # construct classes currently claimed (extended as defects are repaired); see DESIGN 4.2 / 7
-CLASSES_ALL = ['plain', 'rec', 'rec_nested', 'switch', 'switch_unk', 'switch_shared', 'oneof', 'oneof_nested', 'mix_main', 'switch_oneof', 'hub', 'nest3']
+CLASSES_ALL = ['plain', 'rec', 'rec_nested', 'switch', 'switch_unk', 'switch_shared', 'oneof', 'oneof_nested', 'oneof_shared', 'mix_main', 'mix_shared', 'switch_oneof', 'hub', 'nest3']
 
 
 def h64(*parts) -> int:
@@ -448,7 +448,7 @@ class C06(Prop):
 
 class C09(Prop):
     id = 'C09'
-    classes = ['switch', 'switch_unk', 'switch_shared', 'mix_main', 'switch_oneof', 'hub', 'nest3']
+    classes = ['switch', 'switch_unk', 'switch_shared', 'mix_main', 'mix_shared', 'switch_oneof', 'hub', 'nest3']
     rule = ('programs with named/unnamed, nested, shared switches; labels derived from the input incl. labels '
             'without a case; oracle: executed bodies subset of the reference demanded set, consumer kwargs = '
             'selected case value, unknown label => error result; non-trivial = program has a switch with >= 2 '
@@ -460,7 +460,7 @@ class C09(Prop):
 
 class C10(Prop):
     id = 'C10'
-    classes = ['oneof', 'oneof_nested', 'mix_main', 'switch_oneof', 'hub', 'nest3']
+    classes = ['oneof', 'oneof_nested', 'oneof_shared', 'mix_main', 'mix_shared', 'switch_oneof', 'hub', 'nest3']
     rule = ('programs with sibling / nested one-ofs, failures at any depth of candidate sub-pipelines, None/falsy '
             'candidates; oracle: invocation multiset vs reference (laziness, containment, winner value), candidate '
             'start order, OneOfDoesNotHaveResultError on exhaustion; non-trivial = some candidate failed before '
@@ -728,7 +728,13 @@ class C13(Prop):
         script = [[p, list(a)] for p, a in base.decisions]
         n = base.steps
         ks = range(1, n + 1) if n <= 160 else sorted(set(range(1, n + 1, max(1, n // 160))))
+        import time as _time
         for k in ks:
+            if getattr(self, 'deadline', None) is not None and _time.monotonic() > self.deadline + 5.0:
+                if stats is not None:
+                    stats.inconclusive += 1      # enumeration of this execution cut short by the time budget
+                    stats.probe('cancel_enumerations_cut_short')
+                break
             c2 = dict(case)
             c2['cancel'] = {str(k): [0]}
             c2['scheds'] = [{'script': script, 'set_seed': set_seed}]
